@@ -51,7 +51,7 @@ RULE = ("period cases: 1-2 limiters (period 1..60 s, quota 0..8, 25% Align()), 1
         "clock steps {0,1,1000/rate+-1,999,1000,1001,(ttl-1)s,ttl s-1ms,ttl s,ttl s+1ms,(ttl+1)s,random} applied to "
         "both clocks, cancelled / expired contexts, G concurrent AllowN, and (22% of token cases) "
         "outage patterns (EVAL and/or PING answered with errors, or listener closed and restarted) with the monitor "
-        "awaited whenever PING is answered; every run starts with long outages (quick: 1.3 s and 3 s, thorough: 24 of "
+        "awaited whenever PING is answered; every run starts with long outages (quick: 2 s and 3 s, thorough: 24 of "
         "1.5-10 s REAL time, 30% with the listener closed) during which the 100 ms monitor keeps pinging in vain, followed by "
         "recovery (restart or replacement) and 10-14 requests that must all be decided by Redis again, with a HANG outage "
         "(quick: two with 200 ms client timeouts, thorough: four short and one with the 3 s defaults: the server accepts "
@@ -312,7 +312,7 @@ def _fixed_cases(rng, tier):
         hangs = [200, 200, 200, 300, 0]
         k = 8
     else:
-        spans = [1300, 3000]
+        spans = [2000, 3000]
         hangs = [200, 200]
         k = 1
     cases = [_long_outage_case(rng, tier, ms) for ms in spans]
